@@ -20,7 +20,7 @@ ASSUMPTIONS = [
     "ATTRIBUTE_UNRECOGNIZED / ATTRIBUTE_EXPECTED_ENUM with the attribute name as first detail",
     "fail-fast: any exception of the MetapypeRuleError family counts as 'raises for the first'",
 ]
-REQUIRED = ["assignments_valid", "assignments_invalid", "introspection_required_checked", "introspection_values_checked",
+REQUIRED = ["aliasing_probes", "assignments_valid", "assignments_invalid", "introspection_required_checked", "introspection_values_checked",
             "viol_required", "viol_unrecognized", "viol_enum"]
 EXHAUSTIVE = {"quick": True, "thorough": True}
 
@@ -85,11 +85,20 @@ def observe(rule_name, element, kids, assignment):
         errs = None if mode == "failfast" else []
         prefilled = mode == "collecting" and len(assignment) % 2 == 1
         if prefilled:
-            errs.append(_EARLIER)  # a list that already holds an entry from an earlier validation
+            # a list shared with earlier validations (as validate.tree does): an unrelated entry plus whatever an identical
+            # twin node produces; only what this call appends is judged, and what was there must stay
+            errs.append(_EARLIER)
+            twin = emlkit.make_node(rule_name, element, kids, attributes=dict(assignment))
+            try:
+                emlkit.validate_as(rule_name, twin, errs)
+            except Exception:
+                pass
+            emlkit.discard(twin)
+            before = list(errs)
         try:
             emlkit.validate_as(rule_name, n, errs)
             if prefilled:
-                errs = errs[1:] if errs and errs[0] is _EARLIER else ["earlier-entry-lost"]
+                errs = errs[len(before):] if errs[:len(before)] == before and all(a is b for a, b in zip(errs, before)) else ["earlier-entries-disturbed"]
             if mode == "failfast":
                 res.append(("ok", None))
             else:
@@ -146,7 +155,8 @@ def accepted(rule_name, element, kids, attrs):
 
 
 def introspection(ctx, rule_name, element, kids, table):
-    r = emlkit.mrule.Rule(rule_name)
+    # the rule object as a user obtains it: rule.get_rule(element name) where an element maps to the rule
+    r = emlkit.mrule.get_rule(element) if emlkit.mrule.node_mappings.get(element) == rule_name else emlkit.mrule.Rule(rule_name)
     base = emlkit.valid_attributes(rule_name)
     for a, spec in table.items():
         wit = {"rule": rule_name, "element": element, "children": kids, "introspect": a}
@@ -189,6 +199,26 @@ def introspection(ctx, rule_name, element, kids, table):
         else:
             good = (isinstance(vals, (list, tuple)) and len(vals) == len(acc)
                     and all(any(v is w or (type(v) is type(w) and v == w) for w in acc) for v in vals))
+        if good and isinstance(vals, list):
+            # aliasing probe: what a caller does to the returned list must not change what validation enforces or what the
+            # next query reports
+            snapshot_vals = list(vals)
+            vals.append(UNLISTED)
+            if vals[:1]:
+                del vals[0]
+            attrs = dict(base)
+            attrs[a] = UNLISTED
+            ok_ff, ok_co = accepted(rule_name, element, kids, attrs)
+            again = emlkit.mrule.get_rule(element).allowed_attribute_values(a) if emlkit.mrule.node_mappings.get(element) == rule_name \
+                else emlkit.mrule.Rule(rule_name).allowed_attribute_values(a)
+            ctx.evaluated(3)
+            ctx.count("aliasing_probes")
+            if snapshot_vals and (ok_ff or ok_co or list(again) != snapshot_vals):
+                ctx.violation("returned-value-list-aliases-rule-state",
+                              f"{rule_name}: after editing the list returned by allowed_attribute_values({a!r}) validation accepts an "
+                              f"unlisted value: {ok_ff or ok_co}; the query now reports {again!r} instead of {snapshot_vals!r}", wit)
+            elif not snapshot_vals and list(again) != []:
+                ctx.violation("returned-value-list-aliases-rule-state", f"{rule_name}: allowed_attribute_values({a!r}) now reports {again!r}", wit)
         if not good:
             ctx.violation("allowed_attribute_values-disagrees-with-validation",
                           f"{rule_name}.allowed_attribute_values({a!r}) = {vals!r} but validation accepts exactly "
